@@ -1,6 +1,6 @@
 (** C09/Props.v — property theorems only (reindexing equals analysing the current files from scratch).
     Table obligations over today's source are in C09/Tables.v (re-proved against the regenerated tables on every run). *)
-From EV Require Import Base.StoreSM C33.Model C33.Spec C08.Module C08.PropertyModel C33.Proofs C08.SimpleModels C09.Proofs C09.Tables.
+From EV Require Import Base.StoreSM C33.Model C33.Spec C08.Module C08.PropertyModel C33.Proofs C08.SimpleModels C08.Global C08.Diag C08.Product C09.Proofs C09.Tables.
 Local Open Scope N_scope.
 
 (** Clearing the module index after ANY history gives the answers and the container sizes of a new index
@@ -33,6 +33,19 @@ Theorem diagnostic_reindex_eq_fresh : forall (s : didx) (live : list (N * list (
   fold_left (fun s fx => d_add (fst fx) (snd fx) s) live (d_clear s)
   = fold_left (fun s fx => d_add (fst fx) (snd fx) s) live d_init.
 Proof. exact Proofs.diagnostic_reindex_eq_fresh. Qed.
+
+(** The product store (LuaModuleIndex x LuaGlobalIndex x DiagnosticIndex = the modelled part of DbIndex): DbIndex::clear gives
+    the observations and sizes of a new DbIndex, and after ANY history a reindex is observationally a fresh analysis. *)
+Theorem product_clear_is_init : forall c ops,
+  (forall q, db_obs c (s_clear _ _ _ _ (db_store c) (db_state c ops)) q = db_obs c (s_init _ _ _ _ (db_store c)) q) /\
+  db_size c (s_clear _ _ _ _ (db_store c) (db_state c ops)) = db_size c (s_init _ _ _ _ (db_store c)).
+Proof. exact Product.db_clear_is_init. Qed.
+Theorem product_reindex_eq_fresh : forall c ops,
+  (forall q, db_obs c (db_state c (ops ++ [HReindex _])) q
+             = db_obs c (fresh _ _ _ _ (db_store c) (vfs _ _ _ _ (db_store c) (ops ++ [HReindex _]))) q) /\
+  db_size c (db_state c (ops ++ [HReindex _]))
+  = db_size c (fresh _ _ _ _ (db_store c) (vfs _ _ _ _ (db_store c) (ops ++ [HReindex _]))).
+Proof. exact Product.db_reindex_eq_fresh. Qed.
 
 (** Table obligations (source of today): every index of DbIndex is cleared and removed-from; every fact container of
     every index is reset by its clear() and touched by its remove(), outside the one recorded exception. *)
